@@ -8,7 +8,7 @@ git apply $S/patch.diff || { echo "patch does not apply"; exit 1; }
 : > $S/check_result.txt
 for P in "$@"; do
   TIER=${SEED_TIER:-quick}
-  /usr/bin/time -f "wall %es" /verif/bin/check $P --tier $TIER > $S/check_$P.out 2> $S/check_$P.err
+  VERIF_EVIDENCE_DIR=${VERIF_EVIDENCE_DIR:-/tmp/seed_evidence} /usr/bin/time -f "wall %es" /verif/bin/check $P --tier $TIER > $S/check_$P.out 2> $S/check_$P.err
   RC=$?
   echo "check $P tier=$TIER exit=$RC" >> $S/check_result.txt
   grep -E "^VIOLATION|^KNOWN-FINDING" $S/check_$P.out >> $S/check_result.txt
